@@ -6,6 +6,7 @@ CONSTANTS
     Loop = "copy"
     Family = "looserel"
     Tier = "quick"
+    Reporter = "contract"
     EmitOn = FALSE
 INIT Init
 NEXT Next
